@@ -731,6 +731,12 @@ theorem parseTop_hdr (label : SwcText.Str) (T : List Tok) (f : Nat)
   rw [if_pos (label_cond label hl)]
   simp only [adv_cons2 _ _ _ (show Tok.rp ≠ .bad by simp), ok_bind, expectRp, adv_cons _ _ hT, labelType]
 
+theorem parseTop_nil (f : Nat) (rows : List Row) : parseTop (f + 1) [] rows = .ok ([], rows) := by
+  rw [parseTop]
+theorem parseSubtree_nil (ty : Int) (f : Nat) (flag : Bool) (root cur : Int) (rows : List Row) :
+    parseSubtree ty (f + 1) [] flag root cur rows = .ok ([], rows) := by
+  simp [parseSubtree]
+
 theorem convertWith_trunc (label : SwcText.Str) (b : Branch) (T : List Tok) (f : Nat)
     (hl : upper label = "AXON".toList ∨ upper label = "DENDRITE".toList) (hb : NonEmpty b)
     (hT : T <+: branchToks b) :
@@ -750,23 +756,25 @@ theorem convertWith_trunc (label : SwcText.Str) (b : Branch) (T : List Tok) (f :
     simp only [convertWith, skipComments, ok_bind, expectLp, adv_cons2 _ _ _ (show Tok.lp ≠ .bad by simp),
       parseTop_hdr label T (f + 1) hl hhd]
   rw [h0]
+  generalize labelType label = ty at hfail ⊢
   rw [h] at hT
   simp only [List.prefix_cons_iff] at hT
   rcases hT with rfl | ⟨_, rfl, rfl | ⟨_, rfl, hT2⟩⟩
   · simp [skipComments, expectLp]
-  · simp [skipComments, expectLp, parseSubtree, parseTop]
+  · simp only [skipComments, expectLp, adv_single, ok_bind, parseSubtree_nil, parseTop_nil]
+    exact ⟨_, rfl⟩
   · rename_i T2
     rw [lp_true_step _ _ _ _ _ _ (by simp), float_flag] at hfail
     simp only [skipComments, ok_bind, expectLp, adv_cons2 _ _ _ (show Tok.float v ≠ .bad by simp)]
-    cases hx : parseSubtree (labelType label) (f + 1) (.float v :: T2) true (-1) (-1) [] with
+    cases hx : parseSubtree ty (f + 1) (.float v :: T2) true (-1) (-1) [] with
     | error e => simp
     | ok r =>
       obtain ⟨t, rows⟩ := r
       have := hfail t rows hx
       subst this
-      simp [parseTop]
+      simp only [ok_bind, parseTop_nil]
+      exact ⟨_, rfl⟩
 
---TRUNC--
 /-- **a document that ends prematurely is rejected** (partial: stated for the token stream cut anywhere
 inside the tree's points; the general "every accepted stream is bracket-balanced" lemma is the missing
 piece for cuts inside the header) — every proper prefix that still contains the header -/
